@@ -532,6 +532,16 @@ pub fn c14_round(rng: &mut Rng, round: u64, st: &mut Stats, progress: &std::sync
                 .collect()
         })
         .collect();
+    // First-use bursts: in half of the rounds all threads meet at a spin barrier and then use, for
+    // the very first time and at the same moment, a Scanner nobody has touched before (several
+    // fresh scanners per round), so that first uses of one Scanner really collide.
+    let bursts: Vec<scnr::Scanner> = if rng.chance(1, 2) && !cfg!(miri) {
+        st.count("rounds_with_simultaneous_first_use_of_a_fresh_scanner");
+        (0..6).filter_map(|_| cfgs[0].build_uncached().ok()).collect()
+    } else {
+        Vec::new()
+    };
+    let burst_arrivals = std::sync::atomic::AtomicUsize::new(0);
     #[cfg(feature = "hooks")]
     {
         scnr::verif_hooks::cache_log_arm(true);
@@ -549,9 +559,47 @@ pub fn c14_round(rng: &mut Rng, round: u64, st: &mut Stats, progress: &std::sync
             let counters = &counters;
             let shared = &shared;
             let shared_expect = &shared_expect;
+            let bursts = &bursts;
+            let burst_arrivals = &burst_arrivals;
             s.spawn(move || {
                 let mut local = Stats::default();
                 barrier.wait();
+                let mut burst_failed = false;
+                for (bi, fresh) in bursts.iter().enumerate() {
+                    // spin barrier: everybody leaves it within a few nanoseconds (a thread that has
+                    // seen a failure keeps taking part in the barrier, it only stops probing)
+                    burst_arrivals.fetch_add(1, Ordering::SeqCst);
+                    let target = (bi + 1) * n_threads;
+                    let mut spins = 0u32;
+                    while burst_arrivals.load(Ordering::SeqCst) < target {
+                        spins += 1;
+                        if spins > 20_000 {
+                            std::thread::yield_now();
+                        } else {
+                            std::hint::spin_loop();
+                        }
+                    }
+                    if burst_failed {
+                        continue;
+                    }
+                    if let Expect::Streams(exp) = shared_expect {
+                        local.count("simultaneous_first_uses");
+                        match probe_streams(fresh, keys[0].cfg.modes.len(), inputs) {
+                            Err(e) => {
+                                failures.lock().unwrap().push(format!("thread {}: first use of a fresh scanner: {}", ti, e));
+                                burst_failed = true;
+                            }
+                            Ok(got) if &got != exp => {
+                                failures.lock().unwrap().push(format!(
+                                    "thread {}: first use of a fresh scanner simultaneously with {} other threads yields {:?}, sequentially {:?}",
+                                    ti, n_threads - 1, got, exp
+                                ));
+                                burst_failed = true;
+                            }
+                            Ok(_) => {}
+                        }
+                    }
+                }
                 for (op, ki, delay) in plan {
                     // injected delays between operations (never inside the library's lock)
                     match delay {
@@ -694,7 +742,13 @@ pub fn c14(tier: Tier) -> i32 {
     // Rounds run in worker processes: memory corruption caused by a race kills a worker, which is
     // observed and attributed (signal + round), and a worker whose tasks are all blocked in a futex
     // wait for 120 s (normal: about a second) is reported as a deadlock.
-    let mut res = run_cases_subprocess_with_timeout(&ctx, 1, rounds, 10, Some(120));
+    // Only a few workers at a time: the threads of a round must really run in parallel (with 16
+    // workers of up to 16 threads each on 16 cores they would merely be time-sliced and narrow
+    // race windows would hardly ever be hit).
+    let mut wctx = Ctx::new("C14", tier, "exploration");
+    wctx.threads = 3;
+    wctx.start = ctx.start;
+    let mut res = run_cases_subprocess_with_timeout(&wctx, 1, rounds, 10, Some(120));
     // Send + Sync probe result is reported by the driver (it is a build-time observation)
     if let Ok(p) = std::env::var("VERIF_SEND_SYNC_PROBE") {
         res.stats.add(&format!("send_sync_probe_{}", p), 1);
@@ -707,6 +761,8 @@ pub fn c14(tier: Tier) -> i32 {
     .floor("cached_builds", 5_000)
     .floor("failing_builds_under_contention", 100)
     .floor("scans_on_shared_scanner", 3_000)
+    .floor("rounds_with_simultaneous_first_use_of_a_fresh_scanner", 80)
+    .floor("simultaneous_first_uses", 2_000)
     .floor("send_sync_probe_compiled", 1)
     .assume("schedules are those the OS produced under stress (plus TSan/Miri seeds in thorough); they are sampled, not enumerated");
     // the lock-order floors need hook H3; without the hook feature the functional stress still decides
